@@ -100,8 +100,8 @@ pub fn prio(size: usize, out: &mut Out) {
         for i in 0..alts.len() {
             for j in i + 1..alts.len() {
                 for k in j..alts.len() {
-                    // pairs (k == j) and, for size >= 2, triples
-                    if k != j && size < 2 {
+                    // pairs (k == j); triples over all alternatives for size >= 2, over the first nine otherwise
+                    if k != j && size < 2 && k >= 9 {
                         continue;
                     }
                     if !out.mine() {
@@ -114,6 +114,13 @@ pub fn prio(size: usize, out: &mut Out) {
                         for (n, ix) in perm.iter().enumerate() {
                             out.insert(0, &format!("{pre}{}{suf}", set[*ix]), *ix as u32 + 1 + 10 * n as u32 * 0);
                         }
+                        out.display(0);
+                        for t in &tails {
+                            out.search(0, &format!("{pre}{t}"));
+                        }
+                        // delete one sibling (no insert afterwards) and look again: the remaining order must hold
+                        let victim = perm[perm.len() / 2];
+                        out.delete(0, &format!("{pre}{}{suf}", set[victim]));
                         out.display(0);
                         for t in &tails {
                             out.search(0, &format!("{pre}{t}"));
@@ -530,6 +537,59 @@ pub fn groups(n: usize, rng: &mut Rng, out: &mut Out) {
             let mine = crate::gen::parts_of(&t);
             for _ in 0..8 {
                 out.search(0, &path(rng, &mine));
+            }
+        }
+    }
+}
+
+/// Optional-group templates whose expansions are inserted back to back before one `optimize`: an earlier expansion
+/// changes something below an existing node (adds an inline suffix under a parameter, adds a sibling), a later, shorter
+/// expansion splits an ancestor literal node. Stale flags or unsorted vectors below the split show in searches and drawings.
+pub fn splitopt(size: usize, out: &mut Out) {
+    let bases = ["/abc/", "/files/", "/api/v1/items/", "/ab"];
+    let params = ["{x}", "{*x}", "{x:alpha}", "{*x:nota}"];
+    let tails = ["/edit", "/e/{y}", "", "/{*rest}"];
+    let suffixes = [".txt", "-v", "~b", ".{ext}", "_1/z"];
+    let vals = ["a", "r.txt", "a-v", "a/b", "r~b", "a.b.txt", "q_1", "a/b.txt", "x-v/edit"];
+    for base in bases {
+        for par in params {
+            for tail in tails {
+                for suf in suffixes {
+                    for k in 1..base.len().min(2 + 2 * size) {
+                        if !out.mine() || !base.is_char_boundary(k) {
+                            continue;
+                        }
+                        let t1 = format!("{base}{par}{tail}");
+                        let t2 = format!("{}({}{par}{suf})", &base[..k], &base[k..]);
+                        let extra = format!("{base}k");
+                        for order in 0..2 {
+                            out.reset();
+                            out.new_router(0, KEYS);
+                            if order == 0 {
+                                out.insert(0, &t1, 1);
+                                out.insert(0, &extra, 3);
+                                out.insert(0, &t2, 2);
+                            } else {
+                                out.insert(0, &t2, 2);
+                                out.insert(0, &t1, 1);
+                                out.insert(0, &extra, 3);
+                            }
+                            out.display(0);
+                            for v in vals {
+                                for t in ["", "/edit", "/e/q", ".txt", "-v", "~b", ".e", "_1/z", "/r/s"] {
+                                    out.search(0, &format!("{base}{v}{t}"));
+                                }
+                            }
+                            out.search(0, &base[..k]);
+                            out.delete(0, &t2);
+                            out.display(0);
+                            for v in vals.iter().take(4) {
+                                out.search(0, &format!("{base}{v}/edit"));
+                                out.search(0, &format!("{base}{v}.txt"));
+                            }
+                        }
+                    }
+                }
             }
         }
     }
